@@ -4,14 +4,53 @@
 * projection of a real PointGroup to the specification's elements (A, inv, tr),
 * tiny real systems carrying those groups, real Grid / K-list / Data_K.kpoints_all projected to integers,
 * reading TLC dumps that carry the (large) group variable,
-* synthetic calculators that inject integer fields through data_K.kpoints_all.
+* synthetic calculators that inject integer fields through data_K.kpoints_all (derived from the package's Calculator base,
+  built lazily: `KS.FieldIntegrator`, `KS.FieldTabulator`),
+* guarded adapters for everything that is not public API (Data_K constructor, determineNK, NKFFT_recommended ...): when a private
+  name is gone the sub-check is skipped (recorded by the caller in rep.part("skipped_private")) instead of crashing,
+* classification of exceptions (library on a valid input -> violation; harness / environment -> machinery),
+* float tensor fields with general Transforms (rank 3, conj, swap_axes, hexagonal Cartesian rotations),
+* further real systems for the real-calculator comparisons (random R-space system with AA, k.p, SOC, all calculators).
 """
 import os
 import re
+import inspect
 import numpy as np
 
 from .. import tlaparse
 from ..common import MachineryError, quiet, WORK
+
+
+def scratch(tag):
+    """scratch / TLC run name unique per property tag AND process: several checks (or tiers) may run concurrently"""
+    return f"{tag}_{os.getpid()}"
+
+
+# ----------------------------------------------------------------------------------------------------------------
+# exceptions: who is at fault?
+
+
+def lib_fault(ex):
+    """-> "module.function" when the exception was raised inside the wannierberri package (harness/main.py's rule), None when the
+    harness itself or the environment is at fault (bad keyword, renamed private attribute, ImportError, OSError ...)"""
+    if isinstance(ex, MachineryError):
+        return None
+    from ..main import raised_by_code_under_test
+    return raised_by_code_under_test(ex)
+
+
+def report_exception(rep, ex, where, detail):
+    """the package raised on an input the specification calls valid: a violation (and the check continues with the next input);
+    anything that is the harness's or the environment's fault is re-raised (exit 2)"""
+    site = lib_fault(ex)
+    if site is None:
+        raise ex
+    rep.violation(f"raises:{where}:{type(ex).__name__}", dict(detail, error=f"{type(ex).__name__}: {str(ex)[:300]}", raised_in=site))
+
+
+def skipped_private(rep, what, reason):
+    d = rep.parts.setdefault("skipped_private", {})
+    d.setdefault(what, str(reason)[:200])
 
 SQ3 = np.sqrt(3.0)
 LAT_CART = 2.0 * np.eye(3)
@@ -162,33 +201,74 @@ def to_int(a, what, tol=1e-7):
     return r.astype(int)
 
 
+class FactorisationChanged(Exception):
+    """Grid(NKdiv=, NKFFT=) did not return the requested pair: comparing factorisations would be meaningless"""
+
+
+_PRIVATE = {}       # name -> reason, filled when a non-public adapter stops working (reported by the callers)
+
+
+def data_k_of(system, grid, K):
+    """guarded adapter: the Data_K object run() would build for the K-point K (non-public constructor).  None when the private
+    names it needs are gone (the k-sets are then still checked through run() with the one-hot calculator)"""
+    if "Data_K" in _PRIVATE:
+        return None
+    try:
+        from wannierberri.data_K import get_data_k_class_from_system
+        cls = get_data_k_class_from_system(system)
+        return cls(system, dK=K.Kp_fullBZ, grid=grid, Kpoint=K)
+    except (ImportError, AttributeError, TypeError, NameError) as ex:
+        # a changed constructor is not a defect; a constructor that is really broken also breaks run(), which the
+        # one-hot end-to-end part sees through the public API
+        _PRIVATE["Data_K"] = f"{type(ex).__name__}: {ex}"
+        return None
+
+
+def nkfft_recommended(system):
+    """guarded adapter for the (semi-private) attribute System.NKFFT_recommended; None when it is gone"""
+    try:
+        return tuple(int(x) for x in np.array(system.NKFFT_recommended).reshape(-1))
+    except Exception as ex:
+        _PRIVATE["NKFFT_recommended"] = f"{type(ex).__name__}: {ex}"
+        return None
+
+
+def flush_private(rep):
+    for k, v in _PRIVATE.items():
+        skipped_private(rep, k, v)
+
+
 def real_klist(system, div, fft, use_sym, with_ksets=True):
-    """real Grid -> ([(x, w)], [kset as list of dense-grid points], grid).  Raises whatever Grid raises."""
+    """real Grid -> ([(x, w)] with x reduced modulo NKdiv, [kset as list of dense-grid points] or None, grid).
+    Raises whatever Grid / get_K_list raise, NonIntegral when a K-point is not a point of the division grid,
+    FactorisationChanged when Grid did not keep the requested pair.  ksets is None when the Data_K adapter is not available."""
     import wannierberri as wb
-    from wannierberri.data_K import get_data_k_class_from_system
     with quiet():
         grid = wb.Grid(system=system, NKdiv=list(div), NKFFT=list(fft))
         KL = grid.get_K_list(use_symmetry=use_sym)
-    if tuple(int(x) for x in grid.div) != tuple(div) or tuple(int(x) for x in grid.FFT) != tuple(fft):
-        raise MachineryError(f"Grid changed the requested factorisation {div}x{fft} -> {grid.div}x{grid.FFT}")
+    gd, gf = getattr(grid, "div", None), getattr(grid, "FFT", None)
+    if gd is not None and gf is not None:
+        if tuple(int(x) for x in gd) != tuple(div) or tuple(int(x) for x in gf) != tuple(fft):
+            raise FactorisationChanged(f"requested NKdiv={tuple(div)} NKFFT={tuple(fft)}, Grid has NKdiv={tuple(int(x) for x in gd)} "
+                                       f"NKFFT={tuple(int(x) for x in gf)}")
+    else:
+        _PRIVATE["Grid.div/FFT"] = "attributes not found"
     dv = np.array(div)
     N = dv * np.array(fft)
     klist = []
-    ksets = []
-    cls = get_data_k_class_from_system(system)
+    ksets = [] if with_ksets else None
     for K in KL:
-        x = to_int(K.K * dv, "K * NKdiv")
+        x = to_int(np.asarray(K.K) * dv, "K * NKdiv") % dv       # K is defined modulo a reciprocal lattice vector
         w = int(to_int(K.factor * np.prod(dv), "factor * prod(NKdiv)"))
         klist.append((tuple(int(v) for v in x), w))
-        if with_ksets:
-            d = cls(system, dK=K.Kp_fullBZ, grid=grid, Kpoint=K)
-            kp = d.kpoints_all
-            if kp.min() < 0 or kp.max() >= 1:
-                raise NonIntegral("kpoints_all outside [0,1)")
-            ks = to_int(kp * N[None, :], "kpoints_all * N")
+        if ksets is not None:
+            d = data_k_of(system, grid, K)
+            if d is None:
+                ksets = None
+                continue
+            kp = np.asarray(d.kpoints_all)
+            ks = to_int(kp * N[None, :], "kpoints_all * N")       # k-points are defined modulo 1: no range is demanded
             ksets.append([tuple(int(v) % int(N[i]) for i, v in enumerate(row)) for row in ks])
-            if d.nk != len(ksets[-1]) or tuple(int(v) for v in d.NKFFT) != tuple(fft):
-                raise MachineryError("Data_K.nk / NKFFT inconsistent with the grid")
     return klist, ksets, grid
 
 
@@ -197,63 +277,120 @@ def flat_index(p, n):
 
 
 # ----------------------------------------------------------------------------------------------------------------
-# synthetic calculators: results are exact functions of data_K.kpoints_all
+# synthetic calculators: results are exact functions of data_K.kpoints_all.  They derive from the package's Calculator base
+# class (what a user-written calculator does), so they are built lazily: KS.FieldIntegrator, KS.FieldTabulator, KS.ScaleProbe
 
 
-class FieldIntegrator:
-    """Calculator whose per-K result is  (1/nk) * sum_{k in data_K.kpoints_all} table[:, index(k)]  as an EnergyResult:
-    table has shape (nrows, Ntot) + (3,)*rank; the 'energy' axis enumerates the rows (different fields)."""
-    comment = "synthetic field integrator"
-    allow_path = False
-    allow_grid = True
+def _build_classes():
+    import wannierberri                                                   # noqa: F401
+    from wannierberri.calculators import Calculator
 
-    def __init__(self, N, table, rank, tTR, tInv, normalise=True):
-        self.N = np.array(N)
-        self.table = np.asarray(table, dtype=float)
-        self.rank = rank
-        self.tTR, self.tInv = tTR, tInv
-        self.normalise = normalise
-        self.E = np.arange(self.table.shape[0], dtype=float)
-        self.seen = []
+    def base_init(self):
+        try:
+            Calculator.__init__(self, save_mode="")
+        except TypeError:
+            Calculator.__init__(self)
+            self.save_mode = ""
 
-    def indices(self, data_K):
-        kp = data_K.kpoints_all
-        p = to_int(kp * self.N[None, :], "kpoints_all * N") % self.N[None, :]
-        return p[:, 2] + self.N[2] * (p[:, 1] + self.N[1] * p[:, 0])
+    class FieldIntegrator(Calculator):
+        """Calculator whose per-K result is  (1/nk) * sum_{k in data_K.kpoints_all} table[:, index(k)]  as an EnergyResult:
+        table has shape (nrows, Ntot) + (3,)*rank (float or complex); the 'energy' axis enumerates the rows (different fields)."""
+        comment = "synthetic field integrator"
 
-    def __call__(self, data_K):
-        from wannierberri.result import EnergyResult
-        idx = self.indices(data_K)
-        self.seen.append(len(idx))
-        d = self.table[:, idx].sum(axis=1)
-        if self.normalise:
-            d = d / len(idx)
-        return EnergyResult([self.E], d, transformTR=self.tTR, transformInv=self.tInv, rank=self.rank, save_mode="")
+        def __init__(self, N, table, rank, tTR, tInv, normalise=True):
+            base_init(self)
+            self.N = np.array(N)
+            self.table = np.asarray(table)
+            if not np.iscomplexobj(self.table):
+                self.table = self.table.astype(float)
+            self.rank = rank
+            self.tTR, self.tInv = tTR, tInv
+            self.normalise = normalise
+            self.E = np.arange(self.table.shape[0], dtype=float)
+
+        def indices(self, data_K):
+            kp = np.asarray(data_K.kpoints_all)
+            p = to_int(kp * self.N[None, :], "kpoints_all * N") % self.N[None, :]
+            return p[:, 2] + self.N[2] * (p[:, 1] + self.N[1] * p[:, 0])
+
+        def __call__(self, data_K):
+            from wannierberri.result import EnergyResult
+            idx = self.indices(data_K)
+            d = self.table[:, idx].sum(axis=1)
+            if self.normalise:
+                d = d / len(idx)
+            return EnergyResult([self.E], d, transformTR=self.tTR, transformInv=self.tInv, rank=self.rank, save_mode="")
+
+    class FieldTabulator(Calculator):
+        """Calculator returning a TABresult with 'Energy' = invariant scalar field and one KBandResult per entry of `fields`:
+        fields[name] = (table (nb, Ntot)+(3,)*rank, rank, tTR, tInv); bands enumerate different fields."""
+        comment = "synthetic field tabulator"
+
+        def __init__(self, N, energy, fields):
+            base_init(self)
+            self.N = np.array(N)
+            self.energy = np.asarray(energy, dtype=float)       # (nb, Ntot)
+            self.fields = fields
+
+        def __call__(self, data_K):
+            from wannierberri.result import KBandResult, TABresult
+            from wannierberri.symmetry.point_symmetry import transform_ident
+            kp = np.asarray(data_K.kpoints_all)
+            p = to_int(kp * self.N[None, :], "kpoints_all * N") % self.N[None, :]
+            idx = p[:, 2] + self.N[2] * (p[:, 1] + self.N[1] * p[:, 0])
+            res = {"Energy": KBandResult(self.energy[:, idx].T.copy(), transformTR=transform_ident, transformInv=transform_ident)}
+            for name, (table, rank, tTR, tInv) in self.fields.items():
+                t = np.asarray(table)
+                if not np.iscomplexobj(t):
+                    t = t.astype(float)
+                t = t[:, idx]                                    # (nb, nk, 3..)
+                res[name] = KBandResult(np.swapaxes(t, 0, 1).copy(), transformTR=tTR, transformInv=tInv)
+            return TABresult(kpoints=kp.copy(), mode="grid", recip_lattice=data_K.system.recip_lattice, save_mode="", results=res)
+
+    class ScaleProbe(Calculator):
+        """wraps a calculator and remembers the largest |entry| of the per-K results it produced"""
+
+        def __init__(self, calc):
+            self.calc = calc
+            self.scale = 0.0
+            self.comment = getattr(calc, "comment", "probe")
+            base_init(self)
+            for a in ("save_mode", "degen_thresh", "degen_Kramers"):
+                if hasattr(calc, a):
+                    setattr(self, a, getattr(calc, a))
+
+        @property
+        def allow_path(self):
+            return self.calc.allow_path
+
+        @property
+        def allow_grid(self):
+            return self.calc.allow_grid
+
+        def __getattr__(self, name):          # anything else run() may ask of a calculator: what the wrapped one says
+            if name in ("calc", "scale"):
+                raise AttributeError(name)
+            return getattr(self.calc, name)
+
+        def __call__(self, data_K):
+            res = self.calc(data_K)
+            d = getattr(res, "data", None)
+            if isinstance(d, np.ndarray) and d.size:
+                self.scale = max(self.scale, float(np.abs(d).max()))
+            return res
+
+    return dict(FieldIntegrator=FieldIntegrator, FieldTabulator=FieldTabulator, ScaleProbe=ScaleProbe)
 
 
-class FieldTabulator:
-    """Calculator returning a TABresult with 'Energy' = invariant scalar field and one KBandResult per entry of `fields`:
-    fields[name] = (table (nb, Ntot)+(3,)*rank, rank, tTR, tInv); bands enumerate different fields."""
-    comment = "synthetic field tabulator"
-    allow_path = False
-    allow_grid = True
+_CLASSES = {}
 
-    def __init__(self, N, energy, fields):
-        self.N = np.array(N)
-        self.energy = np.asarray(energy, dtype=float)       # (nb, Ntot)
-        self.fields = fields
 
-    def __call__(self, data_K):
-        from wannierberri.result import KBandResult, TABresult
-        from wannierberri.symmetry.point_symmetry import transform_ident
-        kp = data_K.kpoints_all
-        p = to_int(kp * self.N[None, :], "kpoints_all * N") % self.N[None, :]
-        idx = p[:, 2] + self.N[2] * (p[:, 1] + self.N[1] * p[:, 0])
-        res = {"Energy": KBandResult(self.energy[:, idx].T.copy(), transformTR=transform_ident, transformInv=transform_ident)}
-        for name, (table, rank, tTR, tInv) in self.fields.items():
-            t = np.asarray(table, dtype=float)[:, idx]       # (nb, nk, 3..)
-            res[name] = KBandResult(np.swapaxes(t, 0, 1).copy(), transformTR=tTR, transformInv=tInv)
-        return TABresult(kpoints=kp.copy(), mode="grid", recip_lattice=data_K.system.recip_lattice, save_mode="", results=res)
+def __getattr__(name):
+    if name in ("FieldIntegrator", "FieldTabulator", "ScaleProbe"):
+        if not _CLASSES:
+            _CLASSES.update(_build_classes())
+        return _CLASSES[name]
+    raise AttributeError(name)
 
 
 def transform_of(par):
@@ -263,16 +400,15 @@ def transform_of(par):
     return Transform(factor=int(f), transpose_axes=(1, 0) if t else None)
 
 
-def run_wb(system, grid, calcs, irred, name, **kw):
-    """wannierberri.run in serial with output files under .work; irred=True: irreducible K-points + symmetrisation,
-    irred=False: full grid, no symmetrisation"""
+def run_wb(system, grid, calcs, irred, name, symmetrize=None, adpt_num_iter=0, **kw):
+    """wannierberri.run in serial with output files under .work (only the arguments the property is about are passed);
+    irred=True: irreducible K-points + symmetrisation, irred=False: full grid, no symmetrisation unless symmetrize=True"""
     import wannierberri as wb
     d = os.path.join(WORK, name)
     os.makedirs(d, exist_ok=True)
     with quiet():
-        return wb.run(system, grid, calcs, parallel=False, use_irred_kpt=irred, symmetrize=irred, adpt_num_iter=0,
-                      fout_name=os.path.join(d, "res"), file_Klist_path=os.path.join(d, "klist"),
-                      print_progress_step_time=1e9, **kw)
+        return wb.run(system, grid, calcs, parallel=False, use_irred_kpt=irred, symmetrize=irred if symmetrize is None else symmetrize,
+                      adpt_num_iter=adpt_num_iter, fout_name=os.path.join(d, "res"), **kw)
 
 
 # ----------------------------------------------------------------------------------------------------------------
@@ -333,35 +469,11 @@ def symmetric_hamiltonian(name, rng, nw=2, planar=False, rmax=1):
     return {R: {(i, j): Hs[R][i, j] for i in range(nw) for j in range(nw)} for R in Rs}
 
 
-class ScaleProbe:
-    """wraps a calculator and remembers the largest |entry| of the per-K results it produced"""
-
-    def __init__(self, calc):
-        self.calc = calc
-        self.scale = 0.0
-        self.comment = getattr(calc, "comment", "probe")
-
-    @property
-    def allow_path(self):
-        return self.calc.allow_path
-
-    @property
-    def allow_grid(self):
-        return self.calc.allow_grid
-
-    def __call__(self, data_K):
-        res = self.calc(data_K)
-        d = getattr(res, "data", None)
-        if isinstance(d, np.ndarray) and d.size:
-            self.scale = max(self.scale, float(np.abs(d).max()))
-        return res
-
-
 def term_scales(system, N, calcs, name):
     """natural magnitude of every integrated quantity: the largest |contribution of a single k-point| (run over the full grid with
     NKFFT = 1, no symmetry).  A quantity that vanishes by symmetry is then compared on the scale of the terms that cancel."""
     import wannierberri as wb
-    probes = {k: ScaleProbe(c) for k, c in calcs.items()}
+    probes = {k: __getattr__("ScaleProbe")(c) for k, c in calcs.items()}
     with quiet():
         grid = wb.Grid(system=system, NKdiv=[int(x) for x in N], NKFFT=1)
     run_wb(system, grid, probes, False, name)
@@ -377,3 +489,214 @@ def term_scales(system, N, calcs, name):
             floor = 0.0
         out[k] = max(p.scale, floor)
     return out
+
+
+# ----------------------------------------------------------------------------------------------------------------
+# guarded adapter: grid.py determineNK (module-level helper, not public API)
+
+
+def determineNK_adapter():
+    """-> (callable(periodic, NKdiv, NKFFT, NK, rec, pointgroup), None) or (None, reason) when the helper or its keywords are gone"""
+    try:
+        from wannierberri.grid.grid import determineNK
+        names = set(inspect.signature(determineNK).parameters)
+    except (ImportError, AttributeError, TypeError, ValueError) as ex:
+        return None, f"{type(ex).__name__}: {ex}"
+    need = {"periodic", "NKdiv", "NKFFT", "NK", "NKFFT_recommended", "pointgroup"}
+    if not need <= names:
+        return None, f"keywords {sorted(need - names)} not in the signature"
+
+    def call(periodic, NKdiv, NKFFT, NK, rec, pointgroup):
+        return determineNK(periodic=periodic, NKdiv=NKdiv, NKFFT=NKFFT, NK=NK, NKFFT_recommended=rec, pointgroup=pointgroup)
+    return call, None
+
+
+# ----------------------------------------------------------------------------------------------------------------
+# float / complex tensor fields with general Transforms (rank 3, conj, swap_axes, hexagonal Cartesian rotations).
+# A transform is described by dict(factor=+-1, conj=bool, perm=None | permutation of the last `rank` axes); `make_transform`
+# builds the package's Transform from it, `mirror_transform` is the harness's own reading of it.
+
+
+def make_transform(spec, how="transpose_axes"):
+    from wannierberri.symmetry.point_symmetry import Transform
+    perm = spec.get("perm")
+    kw = dict(factor=int(spec["factor"]), conj=bool(spec.get("conj", False)))
+    if perm is not None:
+        if how == "swap_axes":
+            i, j = [a for a in range(len(perm)) if perm[a] != a]
+            kw["swap_axes"] = (i - len(perm), j - len(perm))      # counted from the end: independent of the leading axes
+        else:
+            kw["transpose_axes"] = tuple(int(a) for a in perm)
+    return Transform(**kw)
+
+
+def mirror_transform(T, spec):
+    perm = spec.get("perm")
+    if perm is not None:
+        lead = T.ndim - len(perm)
+        T = np.transpose(T, tuple(range(lead)) + tuple(lead + a for a in perm))
+    if spec.get("conj"):
+        T = np.conj(T)
+    return spec["factor"] * T
+
+
+def rotate_tensor(T, R, rank):
+    for ax in range(T.ndim - rank, T.ndim):
+        T = np.moveaxis(np.tensordot(R, T, axes=(1, ax)), 0, ax)
+    return T
+
+
+def cart_rotation(g, lattice):
+    """Cartesian proper rotation of the catalogue element g = (A, inv, tr) on the lattice (rows = real lattice vectors):
+    k_cart = B^T k_red with B the reciprocal basis (rows), so R = B^T A B^-T"""
+    B = 2 * np.pi * np.linalg.inv(np.asarray(lattice, dtype=float)).T
+    R = B.T @ np.array(g[0], dtype=float) @ np.linalg.inv(B.T)
+    if np.abs(R @ R.T - np.eye(3)).max() > 1e-9:
+        raise MachineryError("catalogue element is not an orthogonal transformation on this lattice")
+    return R
+
+
+def act_float(g, R, rank, sTR, sInv, T):
+    T = rotate_tensor(T, R, rank)
+    if g[2]:
+        T = mirror_transform(T, sTR)
+    if g[1]:
+        T = mirror_transform(T, sInv)
+    return T
+
+
+def sym_field_float(h, N, G, lattice, rank, sTR, sInv):
+    """f(p) = sum_g Act(g, h(g^-1 p)) -> (f, covariance defect max |f(g p) - Act(g, f(p))|)"""
+    f = np.zeros_like(h)
+    Rs = {g: cart_rotation(g, lattice) for g in G}
+    for g in G:
+        for q in np.ndindex(*N):
+            f[act_k(g, q, N)] += act_float(g, Rs[g], rank, sTR, sInv, h[q])
+    defect = 0.0
+    for g in G:
+        for q in np.ndindex(*N):
+            defect = max(defect, float(np.abs(f[act_k(g, q, N)] - act_float(g, Rs[g], rank, sTR, sInv, f[q])).max()))
+    return f, defect
+
+
+# ----------------------------------------------------------------------------------------------------------------
+# further real systems for the real-calculator comparisons
+
+
+def random_system_R(r, nw=2, with_AA=True, lattice=None, centres=None, Rs=None):
+    """random tight-binding System_R: Hermitian Ham(R) and (optionally) Hermitian AA(R) with vanishing on-site diagonal, random
+    non-orthogonal lattice, random centres.  r: numpy RandomState"""
+    import wannierberri as wb
+    if Rs is None:
+        Rs = [(0, 0, 0), (1, 0, 0), (0, 1, 0), (0, 0, 1), (1, 1, 0)]
+    lat = np.eye(3) + 0.1 * r.randn(3, 3) if lattice is None else np.asarray(lattice)
+    cen = r.rand(nw, 3) if centres is None else np.asarray(centres)
+    ham, aa = {}, {}
+    for R in Rs:
+        mR = tuple(-x for x in R)
+        M = r.randn(nw, nw) + 1j * r.randn(nw, nw)
+        A = 0.2 * (r.randn(nw, nw, 3) + 1j * r.randn(nw, nw, 3))
+        if R == (0, 0, 0):
+            M = (M + M.conj().T) / 2
+            A = (A + A.conj().transpose(1, 0, 2)) / 2
+            A[np.arange(nw), np.arange(nw)] = 0
+        ham[R], aa[R] = M, A
+        if R != (0, 0, 0):
+            ham[mR], aa[mR] = M.conj().T, A.conj().transpose(1, 0, 2)
+    mats = {"Ham": {R: {(i, j): M[i, j] for i in range(nw) for j in range(nw)} for R, M in ham.items()}}
+    if with_AA:
+        mats["AA"] = {R: {(i, j): M[i, j] for i in range(nw) for j in range(nw)} for R, M in aa.items()}
+    with quiet():
+        return wb.system.System_R.from_sparse(real_lattice=lat, wannier_centers_red=cen, matrices=mats)
+
+
+def random_system_kp(r, nw=2, lattice=None):
+    """k.p system whose Hamiltonian is a periodic function of the reduced k-vector (so that the wrap of k into [-1/2, 1/2) is
+    immaterial): H(k) = H0 + sum_R (M_R e^{2 pi i k.R} + h.c.)"""
+    from wannierberri.system.system_kp import SystemKP
+    lat = np.eye(3) + 0.1 * r.randn(3, 3) if lattice is None else np.asarray(lattice)
+    Rk = np.array([(1, 0, 0), (0, 1, 0), (0, 0, 1), (1, 1, 0)], dtype=float)
+    Mk = [r.randn(nw, nw) + 1j * r.randn(nw, nw) for _ in Rk]
+    H0 = np.diag(np.arange(nw, dtype=float))
+
+    def ham(k):
+        ph = np.exp(2j * np.pi * Rk.dot(np.asarray(k, dtype=float)))
+        H = sum(p * M for p, M in zip(ph, Mk))
+        return H0 + H + H.conj().T
+    with quiet():
+        return SystemKP(Ham=ham, kmax=None, real_lattice=lat, k_vector_cartesian=False, finite_diff_dk=1e-3)
+
+
+def random_system_soc(r, nw=2):
+    """SystemSOC of two random spin channels with different R-vector sets plus a random Hermitian SOC term.  The SOC matrices are
+    put through non-public names (rvec, dV_soc_wann_*, overlap_up_down, has_soc): returns None when they are gone"""
+    lat = np.eye(3) + 0.1 * r.randn(3, 3)
+    cen = r.rand(nw, 3)
+    Rs = [(0, 0, 0), (1, 0, 0), (0, 1, 0), (0, 0, 1), (1, 1, 0)]
+    up = random_system_R(r, nw, with_AA=True, lattice=lat, centres=cen, Rs=Rs)
+    dn = random_system_R(r, nw, with_AA=True, lattice=lat, centres=cen, Rs=Rs[:4])
+    try:
+        from wannierberri.system.system_soc import SystemSOC
+        from wannierberri.fourier.rvectors import Rvectors
+        import warnings
+        with quiet(), warnings.catch_warnings():
+            warnings.simplefilter("ignore")
+            soc = SystemSOC(up, dn)
+            soc._NKFFT_recommended = np.array([3, 3, 3])
+            soc.set_pointgroup()
+            rsS = [(0, 0, 0), (1, 0, 0), (-1, 0, 0), (0, 1, 0), (0, -1, 0)]
+            soc.rvec = Rvectors(lattice=soc.real_lattice, iRvec=np.array(rsS, dtype=int), shifts_left_red=soc.wannier_centers_red)
+
+            def herm(shape):
+                X = {}
+                tr = (1, 0) + tuple(range(2, len(shape)))
+                for R in rsS:
+                    mR = tuple(-x for x in R)
+                    if mR in X:
+                        X[R] = X[mR].conj().transpose(tr)
+                    else:
+                        X[R] = 0.3 * (r.randn(*shape) + 1j * r.randn(*shape))
+                        if R == (0, 0, 0):
+                            X[R] = (X[R] + X[R].conj().transpose(tr)) / 2
+                return np.array([X[R] for R in rsS])
+            soc.set_R_mat("dV_soc_wann_0_0", herm((nw, nw, 3)), reset=True)
+            soc.set_R_mat("dV_soc_wann_1_1", herm((nw, nw, 3)), reset=True)
+            soc.set_R_mat("dV_soc_wann_0_1", np.array([0.3 * (r.randn(nw, nw, 3) + 1j * r.randn(nw, nw, 3)) for _ in rsS]), reset=True)
+            ov = np.zeros((len(rsS), nw, nw), dtype=complex)
+            ov[0] = np.eye(nw)
+            soc.set_R_mat("overlap_up_down", ov, reset=True)
+            soc.has_soc = True
+            soc.set_soc_axis(theta=0.3, phi=0.7, alpha_soc=1.0)
+        return soc
+    except (ImportError, AttributeError, TypeError, NameError, KeyError) as ex:
+        if lib_fault(ex) is not None and not isinstance(ex, (ImportError, AttributeError)):
+            raise
+        _PRIVATE["SystemSOC"] = f"{type(ex).__name__}: {ex}"
+        return None
+
+
+def all_calculators(Ef, Ef_dyn, omega, skip=()):
+    """every integrating calculator the package defines (found by reflection over calculators.static / dynamic / sdct) that can be
+    built from (Efermi[, omega]) alone -> {name: constructor};  skip: names left out (cost / named exclusions)"""
+    from wannierberri import calculators as calc
+    out = {}
+    for name, c in sorted(vars(calc.static).items()):
+        if inspect.isclass(c) and issubclass(c, calc.static.StaticCalculator) and c is not calc.static.StaticCalculator and not name.startswith("_"):
+            out["static." + name] = (lambda c=c: c(Efermi=Ef, save_mode=""))
+    dyn = dict(Efermi=Ef_dyn, omega=omega, kBT=0.05, smr_fixed_width=0.2, save_mode="")
+    for name, c in sorted(vars(calc.dynamic).items()):
+        if inspect.isclass(c) and issubclass(c, calc.dynamic.DynamicCalculator) and c is not calc.dynamic.DynamicCalculator and not name.startswith("_"):
+            kw = dict(dyn, sc_eta=0.1) if "sc_eta" in inspect.signature(c.__init__).parameters else dyn
+            out["dynamic." + name] = (lambda c=c, kw=kw: c(**kw))
+    sd = getattr(calc, "sdct", None)
+    for name in ("SDCT_sym", "SDCT_asym"):
+        c = getattr(sd, name, None)
+        if c is not None:
+            out["sdct." + name] = (lambda c=c: c(**dyn))
+    return {k: v for k, v in out.items() if k not in skip}
+
+
+def all_tabulators(skip=()):
+    from wannierberri import calculators as calc
+    return {n: c for n, c in sorted(vars(calc.tabulate).items())
+            if inspect.isclass(c) and issubclass(c, calc.tabulate.Tabulator) and c is not calc.tabulate.Tabulator and n not in skip}
